@@ -384,6 +384,9 @@ func (x *Exec) runInstrs(st *State, fr *Frame, b *ssa.BasicBlock, prev *ssa.Basi
 				rk++
 			}
 			fr.vals[in] = res
+			if in.Blocking {
+				x.interference(st)
+			}
 		default:
 			if v, ok := ins.(ssa.Value); ok {
 				fr.vals[v] = x.evalInstr(st, fr, ins)
@@ -392,6 +395,43 @@ func (x *Exec) runInstrs(st *State, fr *Frame, b *ssa.BasicBlock, prev *ssa.Basi
 			}
 		}
 	}
+}
+
+// oldOf is the heap old() denotes on this path: the entry state, or the state after the last interference point.
+func (x *Exec) oldOf(st *State) map[string]string {
+	if st.oldHeap != nil {
+		return st.oldHeap
+	}
+	return x.initHeap
+}
+
+// interference: the function blocks here (select); `interference v: list` in its contract says which locations
+// other goroutines may have changed meanwhile. They are havoc'd, the object invariants of v are assumed again
+// (they hold whenever no entry of v is running: the sequential-handler assumption), and old() refers to this
+// state from now on.
+func (x *Exec) interference(st *State) {
+	if x.fc == nil || len(x.fc.Interf) == 0 {
+		return
+	}
+	x.abstracted["interference at blocking select"] = true
+	env := &specEnv{w: x.w, pkg: x.fc.Pkg, vars: x.entryEnv, st: st, heap: st.heap}
+	for _, m := range x.fc.Interf {
+		x.havocEntry(st, x.fc, m, env)
+	}
+	v, ok := x.entryEnv[x.fc.InterfVar]
+	if !ok {
+		x.reject("contract of %s: interference: unknown variable %s", x.fc.Key, x.fc.InterfVar)
+	}
+	for _, oi := range x.w.cs.ObjInvs[namedKey(v.T)] {
+		oenv := &specEnv{w: x.w, pkg: oi.Pkg, vars: map[string]Val{oi.Var: v}, st: st, heap: st.heap}
+		g, err := oenv.evalBool(oi.E)
+		if err != nil {
+			x.reject("objinv of %s: %v", oi.Type, err)
+		}
+		st.assume(g)
+	}
+	st.oldHeap = st.snapshot()
+	st.trace = append(st.trace, "interference: state havoc'd, object invariants assumed")
 }
 
 func isBackEdgeFrom(prev, b *ssa.BasicBlock) bool { return prev != nil && isBackEdge(prev, b) }
